@@ -10,3 +10,7 @@ struct FileInfo g_info[NO]; size_t g_k; struct BuildValue g_value; unsigned g_mi
 static inline struct BuildValue verif_from_value(vbytes *v) { return g_value; }                      /* decoding is an assumed, pure function of the stored bytes */
 static inline struct FileInfo *verif_output_info0(const struct BuildValue *v) { return &g_info[0]; }
 static inline struct FileInfo *verif_nth_info(const struct BuildValue *v, unsigned n) { __CPROVER_assert(n < v->numOutputInfos && n < NO, "getNthOutputInfo: the index is below the number of outputs"); return &g_info[n]; }
+unsigned g_computes, g_can_calls, g_completes, g_nout; _Bool g_can_answer, g_complete_force; uint32_t g_complete_kind; uint64_t g_complete_hash;
+uint32_t g_tv_kind; uint64_t g_tv_hash;       /* ghost: what the last toValue() encoded */
+static inline vbytes bv_to_value(const struct BuildValue *v) { g_tv_kind = v->kind; g_tv_hash = v->commandHash.value; vbytes b; b.ptr = 0; b.len = 0; return b; }
+static inline void ti_complete(struct TaskInterface *ti, vbytes *b, _Bool force) { g_completes++; g_complete_kind = g_tv_kind; g_complete_hash = g_tv_hash; g_complete_force = force; }
